@@ -106,15 +106,31 @@ SpecCtxOK(L) ==
              <<E.snk, SyncIndices(reg, E.snk)>>, <<L.snk, L.sn>>)
     /\ Check(L.pk = [i \in 1..Len(reg) |-> reg[i].k], "index -> pubkey lookups", [i \in 1..Len(reg) |-> reg[i].k], L.pk)
     /\ Check(L.ix = [i \in 1..Len(reg) |-> i - 1], "pubkey -> index lookups", [i \in 1..Len(reg) |-> i - 1], L.ix)
+    \* pubkeys outside the registry: unknown, or (documented tolerance of the shared cache) an index beyond the registry
+    /\ LET bad == {j \in 1..Len(L.xi) : L.xi[j] >= 0 /\ L.xi[j] < Len(reg)} IN
+       IF bad = {} THEN TRUE
+       ELSE IF "epc-shared-cache-sibling-lookup" \in KnownDeviations THEN Deviation("epc-shared-cache-sibling-lookup")
+       ELSE Mismatch("lookup of a pubkey outside the registry answers with the index of another validator",
+                     {<<L.xk[j], L.xi[j]>> : j \in bad}, Len(reg))
+
+\* Deposit j of the block carries a pubkey that is not in the registry, yet the long-lived (shared) pubkey cache
+\* reports it at an index that is, or - once the earlier new depositors of this block are appended - becomes,
+\* the index of ANOTHER validator: ProcessDeposit then tops that validator up instead of appending a new one.
+NewBefore(j) == Cardinality({i \in 1..(j - 1) : E.deplook[i].reg = -1 /\ E.deplook[i].k # E.deplook[j].k})
+SiblingLookup(j) == LET d == E.deplook[j] IN d.reg = -1 /\ d.cache >= 0 /\ d.cache < E.pren + NewBefore(j)
 
 CtxChecks ==
     IF E.out # "ok"
-    THEN Mismatch("the long-lived line " \o E.out \o " on a step the chain accepted", E.line, E.kind)
+    THEN IF "epc-shared-cache-sibling-lookup" \in KnownDeviations /\ E.out = "err" /\ E.fs.out = "ok"
+            /\ \E j \in 1..Len(E.deplook) : SiblingLookup(j)
+         THEN Deviation("epc-shared-cache-sibling-lookup")
+         ELSE Mismatch("the long-lived line " \o E.out \o " on a step the chain accepted", E.line, E.kind)
     ELSE
     /\ Check(E.root = E.chainroot, "post-state root differs from the chain's", E.chainroot, E.root)
     /\ Check(E.fs.out = "ok" /\ E.fs.root = E.root, "the step from the reloaded pre-state with a fresh context gives another result",
              <<E.out, E.root>>, E.fs)
     /\ SameCtx(E.live, E.fresh, E.n0, "live vs fresh")
+    /\ Check(\A j \in 1..Len(E.fresh.xi) : E.fresh.xi[j] = -1, "a fresh context knows a pubkey outside the registry", E.fresh.xk, E.fresh.xi)
     /\ SpecCtxOK(E.live)
     /\ (E.peer.has = 1 =>
           /\ Check(E.peer.out = E.out /\ E.peer.root = E.root, "reloaded continuation and long-lived continuation disagree",
